@@ -35,8 +35,9 @@ ASSUMPTIONS = [
 REAL = REAL_ALL
 STUB = STUB_ALL + ["process boundaries are os.fork() of a pristine zygote rather than exec of a new interpreter"]
 
-HEADER_POOL = ["h{}", "h {}", 'say "hi" {}', '"q{}"', "two\nlines {}", " lead{}", "x;y{}", "p|q{}", "t`{}", "üml{}", "'s{}'", "tab\t{}"]
-NASTY_CLASS = {0: "plain", 1: "space", 2: "inner_quote", 3: "leading_quote", 4: "newline", 5: "lead_space", 6: "semicolon", 7: "pipe", 8: "backtick", 9: "nonascii", 10: "single_quote", 11: "tab"}
+HEADER_POOL = ["h{}", "h {}", 'say "hi" {}', '"q{}"', "two\nlines {}", " lead{}", "x;y{}", "p|q{}", "t`{}", "üml{}", "'s{}'", "tab\t{}", ", name{}", "city{} ;", "| x{} |", "` tick{}", "a{},  "]
+NASTY_CLASS = {0: "plain", 1: "space", 2: "inner_quote", 3: "leading_quote", 4: "newline", 5: "lead_space", 6: "semicolon", 7: "pipe", 8: "backtick", 9: "nonascii", 10: "single_quote", 11: "tab",
+               12: "delim_then_space", 13: "space_then_delim", 14: "delim_space_both", 15: "backtick_space", 16: "comma_spaces"}
 
 
 def generate(rng, i, tier):
@@ -61,7 +62,7 @@ def generate(rng, i, tier):
                 continue
             fi, m = prev["file"], prev["member"]
         else:
-            m = gen.gen_member(rng, ["id"] + [str(c) for c in range(1, ncol)], len(files[fi]["rows"]), None, max_comps=4)
+            m = gen.gen_member(rng, ["id"] + [str(c) for c in range(1, ncol)], len(files[fi]["rows"]), None, max_comps=4, zoo_p=0.6, zoo_pool=gen.ZOO_SAFE)
         progs.append(m)
         kind = rng.choice(["direct", "via", "via", "named"])
         jobs.append(
